@@ -10,7 +10,7 @@ import Tahoe.Introducer.Model
                svc `U` (ann["service-name"] raises) | `s<id>`;  desc `0` | `1` (description raises)
                seq `A` absent | `i<int>` | `f<floor>` | `P` +inf | `N` -inf | `J` other
        sig     `F` falsy | `P` no v0- prefix | `B` not base32 | `s<k>_<m>` honest | `j<n>` other bytes
-       key     `F` | `P` | `B` | `L` wrong length | `k<id>`
+       key     `F` | `P` | `B` | `L` wrong length | `k<id>` | `k<id>~<spelling id>` (id = the verifying key the string decodes to)
 
   Output: per batch `U=<unsign outcome>,…;C=<inbound>.<wrong_service>.<duplicate>.<update>.<new>;D=<key>:<content>,…`
           joined by `|`, then `#S=<svc>.<key>:<content>,…` (the store in dict order). -/
@@ -57,14 +57,22 @@ def parseKeyF (s : String) : Option (KeyField Nat) :=
   | 'k' :: r => (String.ofList r).toNat?.map KeyField.key
   | _ => none
 
+/-- the key token is the *spelling*: `<decoded>` or `<decoded>~<spelling id>`; `decKey` is the
+    decoding of a spelling (what `verifying_key_from_string` made of the string) -/
+def decKey (sp : String) : KeyField Nat :=
+  match parseKeyF ((sp.splitOn "~").headD "") with
+  | some k => k
+  | none => .badB32
+
 /-- a wire token, with the parse result of its message -/
-def parseWire (t : String) : Option (Wire Nat SymSig Nat × Option (Nat × Option Ann)) :=
+def parseWire (t : String) : Option (SpelledWire String SymSig Nat × Option (Nat × Option Ann)) :=
   if t == "G" then some (.garbage, none) else
   match t.splitOn "/" with
   | [mp, sg, ky] => match mp.splitOn ":" with
     | [m, p] => do
         let mid ← m.toNat?
-        pure (.tuple mid (← parseSigF sg) (← parseKeyF ky), some (mid, ← parseAnn p))
+        let _ ← parseKeyF ((ky.splitOn "~").headD "")
+        pure (.tuple mid (← parseSigF sg) ky, some (mid, ← parseAnn p))
     | _ => none
   | _ => none
 
@@ -104,7 +112,7 @@ def handle : List String → String
         match table.find? (fun e => e.1 == m) with
         | some e => e.2
         | none => none
-      let (st, outs) := runBatches parse subs ⟨[], []⟩ (bws.map (fun b => b.map (·.1))) []
+      let (st, outs) := runBatches parse subs ⟨[], []⟩ (bws.map (fun b => b.map (fun x => decodeWire decKey x.1))) []
       let store := st.store.map (fun e => match e.1.1, e.1.2, e.2 with
         | s, k, a => s!"{s}.{k}:{a.content}")
       "|".intercalate outs ++ "#S=" ++ showList store
